@@ -481,6 +481,8 @@ theorem fold_prop_ok (h id : Nat) (p0? : Option Prop') (hp0 : OKp p0?) :
                   refine ⟨?_, fun q hq => ?_⟩
                   · exact propOK_grow p _ hok (grow_setWFirst .final p.budgets) _ rfl rfl
                   · cases hq; exact ⟨_, rfl, grow_setWFirst .final _⟩
+                | common => exact ⟨hok, fun q hq => by cases hq; exact ⟨_, rfl, Grow.refl _⟩⟩
+                | rejected => exact ⟨hok, fun q hq => by cases hq; exact ⟨_, rfl, Grow.refl _⟩⟩
           · exact ⟨hok, fun q hq => ⟨q, hq, Grow.refl _⟩⟩
       apply ih _ hwf' hchk' hcnt' hstep.1
       intro hone p0 hp0e
@@ -598,6 +600,8 @@ theorem unusedOf_nonneg (p0 : Prop') (hok : PropOK p0) (k : TKind) : 0 ≤ unuse
     · omega
     · exact hf _
   | finalized => exact hf _
+  | common => simp [unusedOf]
+  | rejected => simp [unusedOf]
 
 theorem sumD_le (s0 : State) (hok : ∀ id p0, get id s0.props = some p0 → PropOK p0) :
     ∀ txs, sumD s0 txs ≤ proposedSum txs := by
